@@ -9,11 +9,11 @@ import (
 )
 
 // ParseTemplateBytes parses template bytes into HTML nodes, handling both full documents and fragments.
-// If the content contains a full HTML document (</html> tag), it uses html.Parse.
+// If the content contains a full HTML document (</html> tag, in any letter case), it uses html.Parse.
 // Otherwise, it parses as a fragment using a cached body element.
 func ParseTemplateBytes(templateBytes []byte) ([]*html.Node, error) {
-	// Check if input template contains html/body
-	if bytes.Contains(templateBytes, []byte("</html>")) {
+	// Check if input template contains html/body (tag names are case-insensitive)
+	if bytes.Contains(bytes.ToLower(templateBytes), []byte("</html>")) {
 		doc, err := html.Parse(bytes.NewReader(templateBytes))
 		if err != nil {
 			return nil, err
